@@ -416,6 +416,9 @@ func checkLin(recs []*Rec, init linState, slots map[int]int, cacheFam bool, now,
 	if len(pend) > 4 {
 		return linResult{Skipped: "too many pending operations"}
 	}
+	if len(base)+len(pend) > 90 {
+		return linResult{Skipped: "history too long for the linearizability search"}
+	}
 	model := linModel(init)
 	res := linResult{Ops: len(base) + len(pend)}
 	unknown := false
